@@ -2,8 +2,9 @@
    the executable model SC.C04.Model, which the correspondence check ties to
    src/algorithm/sort/heap_select.rs, src/algorithm/neighbour/{linear_search,cover_tree}.rs and
    src/neighbors/*.rs.  Distances live in any type with a total preorder (`preorder ltb leb`). *)
-From Coq Require Import List Arith Bool Permutation Lia Reals Lra.
-From SC Require Import Base.Num C04.Model C04.Proofs_Heap C04.Proofs_Linear C04.Proofs_Cover C04.Proofs_Est.
+From Coq Require Import List Arith Bool Permutation Lia Reals Lra ZArith.
+From SC Require Import Base.Num C04.Model C04.ModelBuild C04.Proofs_Heap C04.Proofs_Linear C04.Proofs_Cover C04.Proofs_Est
+     C04.ProofsBuild C04.ProofsKnn.
 Import ListNotations.
 Local Close Scope R_scope.
 
@@ -88,6 +89,76 @@ Proof.
   exact (cover_find_exact ltb leb plus PO PM dist pt q SY TR dmax dzero k Hk n root W Hmax Hkn).
 Qed.
 
+(* CoverTree::new (build_cover_tree / batch_insert / split / dist_split / get_scale, model SC.C04.ModelBuild):
+   EVERY tree the construction builds from n >= 1 points is well formed (wf_root: each node's max_dist
+   bounds the distance from its point to every point below it, the first child repeats its parent's
+   point, the root is internal, the leaves enumerate 0..n-1 exactly once) - for every distance function
+   with d(x,x) <= 0 (no symmetry or triangle inequality is needed for this) and any pair of scale
+   functions with `scale_ok`: positive distances have a rounded logarithm >= slo, a floor well above
+   i64::MIN; cover radii of scales below the floor are <= 0; and the rounded logarithm is off by at most
+   one step (radius (gsp d) < d -> d <= radius (gsp d + 1)), which with the bump in get_scale gives
+   d <= radius (get_scale d).  `fuel` bounds the recursion depth of the model; this statement is about every
+   run that does not exhaust it, C04_build_total below says how much fuel is enough. *)
+Theorem C04_build_wf :
+  forall (D : Type) (ltb leb : D -> D -> bool) (dzero dmone : D), preorder ltb leb ->
+  forall (smin : Z) (gsp : D -> Z) (radius : Z -> D) (slo : Z) (dpp : nat -> nat -> D),
+  scale_ok ltb leb dzero smin gsp radius slo -> (forall i, leb (dpp i i) dzero = true) ->
+  forall fuel n t, cover_build ltb leb dzero dmone smin gsp radius dpp fuel n = Some t ->
+                   wf_root leb dpp n t = true.
+Proof. intros D ltb leb dzero dmone PO smin gsp radius slo dpp. exact (build_wf' ltb leb dzero dmone PO smin gsp radius slo dpp). Qed.
+
+(* ... and the construction SUCCEEDS on every non-empty data set (duplicates, all points identical, a single
+   point included): with one unit of fuel per scale between the root's scale and the floor (plus 3) the
+   model returns a tree - the recursion of batch_insert and its while loop terminate - and the tree is
+   well formed.  (For binary64 and base 1.3 the root's scale is < 2710 and the floor -3000: fewer than
+   5720 levels; the correspondence check runs the model with 7000.) *)
+Theorem C04_build_total :
+  forall (D : Type) (ltb leb : D -> D -> bool) (dzero dmone : D), preorder ltb leb ->
+  forall (smin : Z) (gsp : D -> Z) (radius : Z -> D) (slo : Z) (dpp : nat -> nat -> D),
+  scale_ok ltb leb dzero smin gsp radius slo -> (forall i, leb (dpp i i) dzero = true) ->
+  forall fuel n, 1 <= n ->
+  Z.to_nat (get_scale ltb leb dzero smin gsp radius (initial_max ltb dmone dpp n) - slo + 2) + 1 <= fuel ->
+  exists t, cover_build ltb leb dzero dmone smin gsp radius dpp fuel n = Some t /\ wf_root leb dpp n t = true.
+Proof. intros D ltb leb dzero dmone PO smin gsp radius slo dpp. exact (build_total' ltb leb dzero dmone PO smin gsp radius slo dpp). Qed.
+
+(* hence the two query theorems hold on every BUILT tree (no well-formedness hypothesis left) *)
+Theorem C04_cover_built_find_exact :
+  forall (D : Type) (ltb leb : D -> D -> bool) (plus : D -> D -> D), preorder ltb leb ->
+  (forall a b c d, leb a b = true -> leb c d = true -> leb (plus a c) (plus b d) = true) ->
+  forall (P : Type) (dist : P -> P -> D) (pt : nat -> P) (q : P),
+  (forall a b, dist a b = dist b a) ->
+  (forall a b c, leb (dist a c) (plus (dist a b) (dist b c)) = true) ->
+  forall (dmax dzero dmone : D) (smin : Z) (gsp : D -> Z) (radius : Z -> D) (slo : Z),
+  scale_ok ltb leb dzero smin gsp radius slo -> (forall a, leb (dist a a) dzero = true) ->
+  forall fuel k n (root : ctree D), 1 <= k -> k <= n ->
+  cover_build ltb leb dzero dmone smin gsp radius (dpp dist pt) fuel n = Some root ->
+  (forall i, i < n -> leb (dq dist pt q i) dmax = true) ->
+  exists res, cover_find ltb leb plus dmax dzero (dq dist pt q) root n k = Some res /\
+              is_knn leb (dq dist pt q) n k res.
+Proof.
+  intros D ltb leb plus PO PM P dist pt q SY TR dmax dzero dmone smin gsp radius slo SC RF fuel k n root Hk Hkn B Hmax.
+  apply (cover_find_exact ltb leb plus PO PM dist pt q SY TR dmax dzero k Hk n root); auto.
+  eapply (build_wf' ltb leb dzero dmone PO); eauto.
+Qed.
+
+Theorem C04_cover_built_radius_exact :
+  forall (D : Type) (ltb leb : D -> D -> bool) (plus : D -> D -> D), preorder ltb leb ->
+  (forall a b c d, leb a b = true -> leb c d = true -> leb (plus a c) (plus b d) = true) ->
+  forall (P : Type) (dist : P -> P -> D) (pt : nat -> P) (q : P),
+  (forall a b, dist a b = dist b a) ->
+  (forall a b c, leb (dist a c) (plus (dist a b) (dist b c)) = true) ->
+  forall (dzero dmone r : D) (smin : Z) (gsp : D -> Z) (radius : Z -> D) (slo : Z),
+  scale_ok ltb leb dzero smin gsp radius slo -> (forall a, leb (dist a a) dzero = true) ->
+  forall fuel n (root : ctree D),
+  cover_build ltb leb dzero dmone smin gsp radius (dpp dist pt) fuel n = Some root -> leb r dzero = false ->
+  exists res, cover_find_radius leb plus dzero (dq dist pt q) root r = Some res /\
+              is_ball leb (dq dist pt q) n r res.
+Proof.
+  intros D ltb leb plus PO PM P dist pt q SY TR dzero dmone r smin gsp radius slo SC RF fuel n root B Hr.
+  apply (cover_radius_exact ltb leb plus PO PM dist pt q SY TR dzero r n root); auto.
+  eapply (build_wf' ltb leb dzero dmone PO); eauto.
+Qed.
+
 (* parameter errors of the cover-tree queries: k = 0, k > n, r <= 0 *)
 Theorem C04_cover_param_errors :
   forall (D : Type) (ltb leb : D -> D -> bool) (plus : D -> D -> D) (dmax dzero : D) (dq : nat -> D)
@@ -133,6 +204,51 @@ Theorem C04_knn_classifier_vote : forall ncl (y : list nat) (w : weightfn) (sr :
   forall j, j < ncl ->
   (score y W (combine sr ws) j <= score y W (combine sr ws) (clf_vote ROps ncl y w sr))%R.
 Proof. exact knn_classifier_vote. Qed.
+
+(* The estimators END TO END (over the reals; one query row): whichever search structure the estimator was
+   fitted with - the exhaustive scan over the n training rows or the cover tree CoverTree::new built from
+   them (`fitted`) - for every metric (symmetric, triangle inequality, non-negative, d(x,x) = 0), every
+   1 <= k <= n and both weight functions there is a k-nearest set `sr` of the training rows (k entries,
+   distinct true indices, true distances, nothing left out is closer) such that
+   - the regressor's prediction is the weighted mean over sr of the targets (total weight W > 0), and
+   - the classifier's prediction is the label of a class of maximal total weight over sr. *)
+Theorem C04_knn_regressor_end_to_end :
+  forall (P : Type) (dist : P -> P -> R) (pt : nat -> P) (q : P),
+  (forall a b, dist a b = dist b a) -> (forall a b c, (dist a c <= dist a b + dist b c)%R) ->
+  (forall a b, (0 <= dist a b)%R) -> (forall a, dist a a = 0%R) ->
+  forall (smin : Z) (gsp : R -> Z) (radius : Z -> R) (slo : Z), scale_ok Rltb Rleb 0%R smin gsp radius slo ->
+  forall (dmax dinf : R) (s : searcher) n k (y : list R) (w : weightfn),
+  fitted dist pt smin gsp radius s n -> 1 <= k <= n ->
+  (forall i, i < n -> (dq dist pt q i < dinf)%R) -> (forall i, i < n -> (dq dist pt q i <= dmax)%R) ->
+  exists sr, is_knn Rleb (dq dist pt q) n k sr /\
+    let ws := calc_weights ROps w (map snd sr) in
+    let W := rsum ws in
+    (0 < W)%R /\
+    exists pred, reg_predict_row ROps dmax dinf s y w k (dq dist pt q) = Some pred /\
+      (pred * W)%R = rsum (map (fun rw : (nat * R) * R => (nth (fst (fst rw)) y 0 * snd rw)%R) (combine sr ws)).
+Proof.
+  intros P dist pt q SY TR NN RF smin gsp radius slo SC dmax dinf s n k y w.
+  exact (knn_regressor_end_to_end dist pt q SY TR NN RF smin gsp radius slo SC dmax dinf s n k y w).
+Qed.
+
+Theorem C04_knn_classifier_end_to_end :
+  forall (P : Type) (dist : P -> P -> R) (pt : nat -> P) (q : P),
+  (forall a b, dist a b = dist b a) -> (forall a b c, (dist a c <= dist a b + dist b c)%R) ->
+  (forall a b, (0 <= dist a b)%R) -> (forall a, dist a a = 0%R) ->
+  forall (smin : Z) (gsp : R -> Z) (radius : Z -> R) (slo : Z), scale_ok Rltb Rleb 0%R smin gsp radius slo ->
+  forall (dmax dinf : R) (s : searcher) n k (classes : list R) (y : list nat) (w : weightfn),
+  fitted dist pt smin gsp radius s n -> 1 <= k <= n -> (forall i, i < n -> nth i y 0 < length classes) ->
+  (forall i, i < n -> (dq dist pt q i < dinf)%R) -> (forall i, i < n -> (dq dist pt q i <= dmax)%R) ->
+  exists sr, is_knn Rleb (dq dist pt q) n k sr /\
+    let ws := calc_weights ROps w (map snd sr) in
+    let W := rsum ws in
+    let c := clf_vote ROps (length classes) y w sr in
+    clf_predict_row ROps dmax dinf s classes y w k (dq dist pt q) = Some (nth c classes 0%R) /\
+    forall j, j < length classes -> (score y W (combine sr ws) j <= score y W (combine sr ws) c)%R.
+Proof.
+  intros P dist pt q SY TR NN RF smin gsp radius slo SC dmax dinf s n k classes y w.
+  exact (knn_classifier_end_to_end dist pt q SY TR NN RF smin gsp radius slo SC dmax dinf s n k classes y w).
+Qed.
 
 (* estimator parameter checks of fit: the classifier needs k >= 2, the regressor k >= 1, both |x| = |y| *)
 Theorem C04_knn_param_errors : forall x_n y_n k,
@@ -186,4 +302,62 @@ Example C04_estimator_instance :
 Proof.
   split; [|simpl; auto]. rewrite weights_exact_match by (simpl; auto). simpl.
   repeat match goal with |- context [Req_EM_T ?a ?b] => destruct (Req_EM_T a b); try lra end; reflexivity.
+Qed.
+
+(* construction: scale functions over nat with scale_ok (rounded logarithm = the distance itself, cover
+   radius = the scale), the tree the model builds from six points of the line (with a duplicate), its
+   well-formedness and a query on it *)
+Definition C04_pts (i : nat) : nat := nth i [0; 7; 3; 3; 12; 8] 0.
+Example C04_nat_scale_ok : scale_ok Nat.ltb Nat.leb 0 (-10)%Z Z.of_nat Z.to_nat 0%Z.
+Proof.
+  split; [lia|]. split; [intros; lia|]. split.
+  - intros s x Hs H. apply Nat.leb_le in H. apply Nat.leb_le. destruct s; simpl in *; lia.
+  - intros d _ H. rewrite Nat2Z.id in H. apply Nat.ltb_lt in H. lia.
+Qed.
+Example C04_build_instance :
+  cover_build Nat.ltb Nat.leb 0 0 (-10)%Z Z.of_nat Z.to_nat (dpp C04_line C04_pts) 40 6 =
+    Some (Node 0 12 [Node 0 8 [Node 0 3 [Node 0 0 []; Node 3 0 [Node 3 0 []; Node 2 0 []]];
+                               Node 1 1 [Node 1 0 []; Node 5 0 []]];
+                     Node 4 0 []]) /\
+  (forall i, Nat.leb (dpp C04_line C04_pts i i) 0 = true) /\
+  Z.to_nat (get_scale Nat.ltb Nat.leb 0 (-10)%Z Z.of_nat Z.to_nat (initial_max Nat.ltb 0 (dpp C04_line C04_pts) 6) - 0 + 2) + 1 <= 40 /\
+  (forall t, cover_build Nat.ltb Nat.leb 0 0 (-10)%Z Z.of_nat Z.to_nat (dpp C04_line C04_pts) 40 6 = Some t ->
+             cover_find Nat.ltb Nat.leb Nat.add 1000 0 (dq C04_line C04_pts 6) t 6 3 = Some [(1, 1); (5, 2); (3, 3)]).
+Proof.
+  split; [reflexivity|]. split.
+  - intros i. unfold dpp, C04_line. apply Nat.leb_le. lia.
+  - split; [vm_compute; lia|]. intros t H. vm_compute in H. inversion H; subst. reflexivity.
+Qed.
+
+(* end to end: |a - b| on the reals is a metric in the sense of the theorems, scale functions over the reals
+   with scale_ok exist (rounded logarithm = the next integer above d, cover radius = the scale itself), and
+   both kinds of search structure can be `fitted` *)
+Example C04_R_metric :
+  (forall a b : R, Rabs (a - b) = Rabs (b - a)) /\
+  (forall a b c : R, (Rabs (a - c) <= Rabs (a - b) + Rabs (b - c))%R) /\
+  (forall a b : R, (0 <= Rabs (a - b))%R) /\ (forall a : R, Rabs (a - a) = 0%R).
+Proof.
+  repeat split; intros.
+  - apply Rabs_minus_sym.
+  - replace (a - c)%R with ((a - b) + (b - c))%R by lra. apply Rabs_triang.
+  - apply Rabs_pos.
+  - rewrite Rminus_diag_eq by reflexivity. apply Rabs_R0.
+Qed.
+Definition C04_Rradius (s : Z) : R := if (s <? 0)%Z then 0%R else IZR s.
+Example C04_R_scale_ok : scale_ok Rltb Rleb 0%R (-10)%Z up C04_Rradius 0%Z.
+Proof.
+  split; [lia|]. split; [|split].
+  - intros d H. apply Rleb_false in H. destruct (archimed d) as [A _].
+    assert (0 < IZR (up d))%R by lra. apply lt_IZR in H0. lia.
+  - intros s x Hs H. unfold C04_Rradius in H. apply Z.ltb_lt in Hs. rewrite Hs in H. exact H.
+  - intros d H H1. exfalso. apply Rleb_false in H. destruct (archimed d) as [A _].
+    assert (0 < IZR (up d))%R by lra. apply lt_IZR in H0.
+    unfold C04_Rradius in H1. replace (up d <? 0)%Z with false in H1 by (symmetry; apply Z.ltb_ge; lia).
+    apply Rltb_true in H1. lra.
+Qed.
+Example C04_fitted_instances :
+  fitted (fun a b : R => Rabs (a - b)) (fun i => INR i) (-10)%Z up C04_Rradius (SLinear 5) 5 /\
+  fitted (fun a b : R => Rabs (a - b)) (fun i => INR i) (-10)%Z up C04_Rradius (SCover 1 (Node 0 0%R [Node 0 0%R []])) 1.
+Proof.
+  split; [reflexivity|]. split; [reflexivity|]. exists 1. cbn. rewrite Z.eqb_refl. reflexivity.
 Qed.
